@@ -24,10 +24,21 @@ type SimCfg struct {
 	EstSteps    int             `json:"est_steps"`
 }
 
+// GenCtx is what a generator gets: a PRNG seeded from (VERIF_SEED, run index)
+// plus the raw coordinates for generators that enumerate one dimension
+// systematically.
+type GenCtx struct {
+	Rng  *rand.Rand
+	Prop string
+	Tier string
+	Idx  int
+	Seed int64
+}
+
 // Family is one scenario family.
 type Family struct {
 	// Gen draws a scenario for run idx of the given tier.
-	Gen func(rng *rand.Rand, prop, tier string, idx int) interface{}
+	Gen func(g GenCtx) interface{}
 	// New returns an empty scenario value to decode JSON into.
 	New func() interface{}
 	// Run executes the scenario as the root goroutine of a simulation.
